@@ -145,7 +145,7 @@ def gen_grid(rng):
 
 
 def generate(rng, tier):
-    n = 240 if tier == "quick" else 4000
+    n = 420 if tier == "quick" else 4000
     return [gen_kernel(rng) if i % 3 == 0 else gen_grid(rng) for i in range(n)]
 
 
